@@ -155,6 +155,23 @@ ADDENDA = {
     "C19": " Unknown template variables are instantiated as opaque ints so that the typed rules still apply.",
     "C20": " The module read is followed into a one-level helper and may not be memoised.",
 }
+ADDENDA3 = {
+    "C01": " No bound method object is tested for truth on the codec path (R01.9); slice-based word reads cover the bits they return.",
+    "C02": " A raising test of consumed bits against the input length rounds the bits up to bytes (R02.7); a sub-value encoded into a private buffer and appended as bytes is not the canonical grammar.",
+    "C03": " Typed reading of the struct template on a model struct declared out of id order with three different field types: the instance type-checks (R03.12) and every decoded / parsed value lands in its own member (R03.2); sizes cached on schema nodes are not stale (R03.9); a pre-sized encode buffer is no larger than the smallest encoding (R03.10); synthesised rpc type names are derived identically at definition and references (R03.11); a decoded count that is clamped before the loop must be clamped in a unit every iteration consumes.",
+    "C06": " Grouping containers are not built from one shared mutable default (R06.8).",
+    "C07": " Optional numeric parameters are compared with None, not tested for truth (R07.7).",
+    "C08": " An index of declared names is written only by declaration/import callbacks (R08.5); the import merges the module whole or a reference-closed subset (R08.6); error mapping extends the incoming error (R08.7).",
+    "C12": " Entries built while walking a chain of types read every value from the node the walk is at (R12.7); no fixed-precision number formatting on the reflection cone (R12.8).",
+    "C13": " Find-or-insert pools are keyed by everything the pooled object is built from (R13.7), read from a fully type-checked instance (reflection.h stand-in generated from reflection.fcp).",
+    "C15": " Typed reading of the generated struct codec on the permuted model struct: Encode/Decode touch the buffer in ascending field id, a decoding constructor in member declaration order, no unsequenced buffer accesses (R15.4).",
+    "C16": " Overruns are not swallowed (R16.5); bit and byte quantities are not mixed inside the buffer class (R16.6).",
+    "C18": " Lookup keys concatenated from several variable texts keep them apart (R18.6); truth-value filters on the binding list and prefix comparisons of the bus tag are violations.",
+    "C19": " A last-send slot taken from a message attribute is followed into the Python writer (keyed by a non-identifying attribute: violation).",
+    "C20": " Module text and top-level text are read in the same newline mode (R20.5).",
+}
+for _pid, _txt in ADDENDA3.items():
+    ADDENDA[_pid] = ADDENDA.get(_pid, "") + _txt
 for _pid, _txt in ADDENDA.items():
     _t = CLAIMS[_pid]
     CLAIMS[_pid] = (_t[0], _t[1] + _txt, _t[2], _t[3])
